@@ -3,7 +3,7 @@ from . import shared as S
 from . import dumpside as D
 
 META = {
-    'claim_added': "Also decided: class-level mutable defaults mutated through self are reported; resolver patch aliasing is decided by partial evaluation over PyYAML's own list objects (slice assignment, any/reversed supported). Round 6 (E14): caches on the code this property is about are invisible - no value that lives in a memo cell (dict / lazily filled attribute / lru_cache) is modified by the code it is handed to, the key of a cell contains every input its value depends on, no mutable parameter default is modified or handed out; given that, the program is analysed as if every lookup missed.",
+    'claim_added': "Also decided: class-level mutable defaults mutated through self are reported; resolver patch aliasing is decided by partial evaluation over PyYAML's own list objects (slice assignment, any/reversed supported). Round 6 (E14): caches on the code this property is about are invisible - no value that lives in a memo cell (dict / lazily filled attribute / lru_cache) is modified by the code it is handed to, the key of a cell contains every input its value depends on, no mutable parameter default is modified or handed out; given that, the program is analysed as if every lookup missed. Round 12: R11.1 function-object-state - an object that the __init__ of a load/dump function object builds and its __call__ uses is state between calls and threads, whatever the cleanup on the normal path looks like.",
     'level': 'other',
     'technique': 'static effect analysis: alias roots of every store / mutator call in the call closure of the load and dump '
                  'entry points, classified by lifetime of the written object (instantiation site); who-may-register rules; '
